@@ -64,6 +64,12 @@ func genCase(t *rapid.T) Case {
 			max = 65536
 		}
 		content := gen.SizedBytes(max, 0, 1, 55, 56, 64, 65).Draw(t, "content")
+		if rapid.IntRange(0, 4).Draw(t, "dershaped") == 0 {
+			content = gen.DERShaped(t) // e.g. a signed .cer file
+			if rapid.Bool().Draw(t, "certcontent") {
+				content = id.Cert.Raw
+			}
+		}
 		k, c := pemKeyCert(id)
 		sig, err := ossl.Sign(k, c, content, o)
 		if err != nil {
@@ -87,6 +93,9 @@ func genCase(t *rapid.T) Case {
 			Time: time.Date(rapid.IntRange(1950, 2049).Draw(t, "year"), time.Month(rapid.IntRange(1, 12).Draw(t, "month")), rapid.IntRange(1, 28).Draw(t, "day"),
 				rapid.IntRange(0, 23).Draw(t, "h"), rapid.IntRange(0, 59).Draw(t, "m"), rapid.IntRange(0, 59).Draw(t, "s"), 0, time.UTC)}
 		content := gen.SizedBytes(4096, 0, 1, 55, 56, 64, 65).Draw(t, "content")
+		if rapid.IntRange(0, 4).Draw(t, "dershaped") == 0 {
+			content = gen.DERShaped(t)
+		}
 		sig, err := seeds.Emulate(id, content, o)
 		if err != nil {
 			t.Fatalf("emulate: %v", err)
@@ -134,6 +143,9 @@ func checkCase(c Case) error {
 	}
 	if attached {
 		hx.Class("attached_content")
+		if len(c.Content) >= 2 && int(c.Content[1]) == len(c.Content)-2 {
+			hx.Class("attached_content_is_itself_one_der_element")
+		}
 	}
 	if sd.Certs == nil {
 		hx.Class("no_embedded_certificates")
